@@ -189,9 +189,13 @@ class Factoring:
                     body_probe = False
                 body = copy.deepcopy(val)
                 call = Opaque({name: None})
-                call.nested = rng.random() < 0.3
+                r7 = rng.random()
+                call.nested = True if r7 < 0.25 else "list" if r7 < 0.35 else False
+                call.args_first = (not call.nested) and r7 > 0.85
                 if call.nested:
-                    self.forms.append("param:arguments-indented-under-the-call-key")
+                    self.forms.append("param:arguments-indented-under-the-call-key" + ("-as-list" if call.nested == "list" else ""))
+                if call.args_first:
+                    self.forms.append("param:call-key-after-its-arguments")
                 for (p, s), f in zip(chosen, formals):
                     _set(body, p, f)
                     call[f] = s
@@ -211,7 +215,9 @@ class Factoring:
                     idx = path[-1]
                     same = rng.random() < 0.3
                     call2 = Opaque({name: None})
-                    call2.nested = rng.random() < 0.3
+                    r8 = rng.random()
+                    call2.nested = True if r8 < 0.25 else "list" if r8 < 0.35 else False
+                    call2.args_first = (not call2.nested) and r8 > 0.85
                     inst = copy.deepcopy(body)
                     for (p, s), f in zip(chosen, formals):
                         v = call[f] if same else rng.choice(self.decoys + [s])
@@ -231,7 +237,15 @@ def to_plain(node):
     (`"@m": {f: v}`) instead of beside it (`"@m":` / `f: v`): both spellings bind the same arguments."""
     if isinstance(node, Opaque) and getattr(node, "nested", False):
         name = next(iter(node))
-        return {name: {k: to_plain(v) for k, v in node.items() if k != name}}
+        args = {k: to_plain(v) for k, v in node.items() if k != name}
+        if node.nested == "list" and args:
+            return {name: [{k: v} for k, v in args.items()]}          # arguments as a sequence of one-key mappings under the call key
+        return {name: args}
+    if isinstance(node, Opaque) and getattr(node, "args_first", False):
+        name = next(iter(node))
+        out = {k: to_plain(v) for k, v in node.items() if k != name}
+        out[name] = None                                               # the call key written AFTER its arguments (a mapping has no order)
+        return out
     if isinstance(node, dict):
         return {k: to_plain(v) for k, v in node.items()}
     if isinstance(node, list):
